@@ -871,7 +871,7 @@ fn empties_ok(got: &[usize], node: &Node) -> Option<Mismatch> {
     }
     if node.reopened {
         // after a reopen an explicitly written default value is indistinguishable from a removal
-        let relaxed: Vec<usize> = {
+        let relaxed: BTreeSet<usize> = {
             let mut s: BTreeSet<usize> = strict.iter().copied().collect();
             for p in &node.relaxed {
                 let still = matches!(node.model.flags.get(p), Some(f) if f.written && !f.removed_last && f.wrote_default);
@@ -879,7 +879,7 @@ fn empties_ok(got: &[usize], node: &Node) -> Option<Mismatch> {
                     s.insert(*p);
                 }
             }
-            s.into_iter().collect()
+            s
         };
         // any set between strict and relaxed is accepted
         let gs: BTreeSet<usize> = got.iter().copied().collect();
@@ -888,7 +888,8 @@ fn empties_ok(got: &[usize], node: &Node) -> Option<Mismatch> {
             return None;
         }
     }
-    mm("empties", format!("empty list {:?} != model {:?}", got, strict))
+    let short = |v: &[usize]| if v.len() > 40 { format!("{:?}.. ({} entries)", &v[..40], v.len()) } else { format!("{:?}", v) };
+    mm("empties", format!("empty list {} != model {}", short(got), short(&strict)))
 }
 
 /// Builds an altered proof object of the backend's own type.
